@@ -38,6 +38,35 @@ CLAIMED = {
   note="Trusted: Lean kernel, model validated by correspondence, harness oracles. Excluded and stated: u32 generation overflow within 2048 of 2^32 (counterexample "
        "permutation_near_overflow in the Props file), state roll-back to an older snapshot, real AEAD/KDF collision resistance (FreePrim hypothesis).",
   ref="DESIGN.md §4 C05"),
+ "C11": dict(
+  technique="Lean 4 proof (pending-commit state machine: invariant by induction over all op lists) + exhaustive interleaving enumeration on real groups replayed on the model",
+  text="Theorems MlsVerif.Props.C11 over the pending-commit machine (build / detached build / clear / apply / apply-detached / deliver): an invariant proved for every "
+       "reachable world (inv_reachable, hist_reachable), building a commit changes no member's state, clear restores, committer and receivers reach the same state, a foreign "
+       "commit discards the pending one, at most one pending commit, only commits of the current epoch are accepted, stale detached secrets are rejected and leave the "
+       "world unchanged, every epoch move is exactly +1. Tie: every op sequence up to depth 4 (quick, 12k sequences) / 5 (thorough, 171k) is executed on real groups "
+       "(cloned at each DFS node) and replayed on the compiled model; per op ok/err and every member's (epoch, state class, pending flag) are compared; direct oracle: "
+       "a failing op changes nothing, epochs move by 0/+1.",
+  note="Trusted: Lean kernel; hand model validated exhaustively at the stated depth; enumerated commits are empty (content covered elsewhere). The model abstracts the "
+       "error kind of a same-epoch commit from another branch (rejected cryptographically).",
+  ref="DESIGN.md §4 C11"),
+ "C16": dict(
+  technique="Lean 4 proof (epoch admission / observer window exact, monotone, no underflow) + observers on random real histories with the window replayed on the model",
+  text="Theorems MlsVerif.Props.C16: a ciphertext of epoch m is admitted by an observer at epoch e with jitter j iff e <= m + j (window_exact), handshake messages only in "
+       "the current epoch, the bound never underflows for any u64 epoch/jitter (no_underflow), jitter >= epoch admits everything, monotone in jitter, wrong group/version "
+       "rejected. Tie: up to 6 observers per random history with public handshake (started at random epochs, every jitter class incl. > epoch, 2^63, 2^64-1, snapshot/"
+       "restore) must equal the members' context, roster and tree after every commit and must never panic; every ciphertext delivery is an `adm` row replayed on the model.",
+  note="Trusted: Lean kernel, model validated by the `adm` correspondence, harness oracle for 'tracks the members'. That the observer's commit processing equals the members' "
+       "is shown by the oracle and by the shared tree-layer model (C01/C08), not by a separate theorem. External proposals issued by the observer are not generated yet.",
+  ref="DESIGN.md §4 C16"),
+ "C17": dict(
+  technique="Lean 4 proof (membership check <-> same identities / subset; join parameter checks; freeze) + re-init/branch scenarios on the real library replayed on the model",
+  text="Theorems MlsVerif.Props.C17: for duplicate-free identity lists the re-init check holds iff the successor has exactly the old identities (any order, any old tree shape), "
+       "the branch check iff subset; supersets and replaced identities are refused; joinChecks_ok_iff characterises every parameter check (version, suite, epoch 1, group id, "
+       "extensions) with one lemma per mismatch; frozen_after_reinit. Tie: random old groups (2-7 members, interior blank leaves, re-keyed members) x successor kind x member set "
+       "(equal/subset/superset/replaced) on the real library: creation, every old member's join, outsider and plain-join refusal, freeze of the old group; `sub` rows replayed on the model.",
+  note="Trusted: Lean kernel; identities abstracted to numbers (IdentityProvider::identity); the resumption-PSK binding itself is cryptographic (C18/C13). Parameter-change "
+       "paths are proved on the model but only the unchanged-parameter path is exercised on the implementation.",
+  ref="DESIGN.md §4 C17"),
 }
 PENDING_REASON = "check not built yet in this session (planned, see DESIGN.md §8); not claimed until its check exists"
 
